@@ -173,8 +173,17 @@ def finish(prop, tier, seed, level, results, t0, *, selftest=False, hang_is_viol
     violations, known, nonrepro, hazards = [], [], [], []
     seen_sig = set()
     tried = 0
+    # at most max_replays counterexamples are replayed, one per task label first (diverse witnesses)
+    first, rest, seen_lab = [], [], set()
     for c in cexs:
-        if tried >= max_replays and (violations or known):
+        if c.get("label") not in seen_lab:
+            seen_lab.add(c.get("label"))
+            first.append(c)
+        else:
+            rest.append(c)
+    order = first + rest
+    for c in order:
+        if tried >= max_replays:
             break
         tried += 1
         rec = {"property": prop, "rules": c["rules"], "hist": c.get("hist", {}), "params": c.get("params") or {},
